@@ -106,14 +106,6 @@ Definition inverse_pair (f g : option string) : bool :=
   | _, _ => false
   end.
 
-(* e = HPath p  or  HCall f (HPath p) *)
-Definition simple_rhs (e : hexpr) : option (option string * list string) :=
-  match e with
-  | HPath p => Some (None, p)
-  | HCall f (HPath p) => Some (Some f, p)
-  | _ => None
-  end.
-
 Fixpoint path_eqb (a b : list string) : bool :=
   match a, b with
   | [], [] => true
